@@ -12,7 +12,7 @@ structure MinutelyArgs (a : Args) : Prop where
   freq : a.freq = 5
   interval : 1 ≤ a.interval
   valid : a.dtstart.Valid
-  byweekno : a.byweekno = none
+  weekno : WArg a
   byeaster : a.byeaster = none
   monthday_nz : ∀ x ∈ a.bymonthday.getD [], x ≠ 0
   byhour : a.byhour = none
@@ -21,15 +21,15 @@ structure MinutelyArgs (a : Args) : Prop where
 
 variable {a : Args} {r : Rule}
 
-theorem ma_dw (ma : MinutelyArgs a) : DWArgs (asDaily a) :=
-  ⟨Or.inr rfl, ma.interval, ma.valid, ma.byweekno, ma.byeaster, ma.monthday_nz⟩
+theorem ma_dw (ma : MinutelyArgs a) : DWArgs (asDaily0 a) :=
+  ⟨Or.inr rfl, ma.interval, ma.valid, rfl, ma.byeaster, ma.monthday_nz⟩
 
 abbrev minutelyRuleOf (a : Args) (bs : Option (List Int)) : Rule :=
   { freq := a.freq, interval := a.interval, wkst := a.wkst.getD 0,
     dtstart := { a.dtstart with us := 0 }, tz := a.tz, count := a.count, untilDT := a.untilDT,
     bysetpos := a.bysetpos, bymonth := a.bymonth.map sortedSet, bymonthday := bymonthdayOf a,
     bynmonthday := bynmonthdayOf a, byyearday := a.byyearday.map sortedSet,
-    byeaster := none, byweekno := none,
+    byeaster := none, byweekno := a.byweekno.map sortedSet,
     byweekday := byweekdayOf a, bynweekday := bynweekdayOf a,
     byhour := none, byminute := none, bysecond := bs, timeset := none }
 
@@ -57,50 +57,26 @@ theorem mly_rule (ma : MinutelyArgs a) (h : construct a = .ok r) :
     injection h5 with h5; exact h5.symm
   subst hbh hbm hts
   have hne0 : (a.freq == 0) = false := by simp [ma.freq]
-  exact ⟨bs, by simp [minutelyRuleOf, hne0, ma.byweekno, ma.byeaster, bymonthOf], h4⟩
+  exact ⟨bs, by simp [minutelyRuleOf, hne0, ma.byeaster, bymonthOf], h4⟩
 
 theorem mly_cuts (ma : MinutelyArgs a) (h : construct a = .ok r) : CutsAgree a r := by
   obtain ⟨bs, hr, _⟩ := mly_rule ma h
   rw [hr]; exact ⟨rfl, rfl, rfl⟩
 
-theorem mly_simple (ma : MinutelyArgs a) (h : construct a = .ok r) : SimpleRule r := by
+theorem mly_wrule (ma : MinutelyArgs a) (h : construct a = .ok r) : WRule r := by
   have hd := construct_nth_demoted a r h (by rw [ma.freq]; omega)
   obtain ⟨bs, hr, _⟩ := mly_rule ma h
   rw [hr] at hd ⊢
-  refine ⟨rfl, ?_, rfl⟩
+  refine wrule_of a _ ma.weekno rfl rfl ?_ rfl
   dsimp only at hd ⊢
   rcases hd with hd | hd <;> rw [hd] <;> rfl
 
-theorem date_fields_asDaily_m (ma : MinutelyArgs a) :
-    bymonthdayOf (asDaily a) = bymonthdayOf a ∧ bynmonthdayOf (asDaily a) = bynmonthdayOf a ∧
-    byweekdayOf (asDaily a) = byweekdayOf a := by
-  have hm : monthdayArg (asDaily a) = monthdayArg a := by
-    unfold monthdayArg asDaily; simp [ma.freq]
-  have hw : weekdayArg (asDaily a) = weekdayArg a := by
-    unfold weekdayArg asDaily; simp [ma.freq]
-  have hp : ∀ l, plainWeekdays (asDaily a) l = plainWeekdays a l := by
-    intro l; unfold plainWeekdays asDaily; simp [ma.freq]
-  refine ⟨by unfold bymonthdayOf; rw [hm], by unfold bynmonthdayOf; rw [hm], ?_⟩
-  unfold byweekdayOf; rw [hw]
-  cases weekdayArg a with
-  | none => rfl
-  | some l => dsimp only; rw [hp]
-
-theorem simpleOk_eq_dateOk_minutely (ma : MinutelyArgs a) (h : construct a = .ok r) (ord : Int) (ho : 1 ≤ ord) :
-    simpleOk r ord = Spec.RRule.dateOk a ord := by
+/-- **bridge**: the model's filter predicate is the specification's `dateOk` -/
+theorem mly_bridge (ma : MinutelyArgs a) (h : construct a = .ok r) (ord : Int) (ho : 1 ≤ ord) :
+    (simpleOk r ord && wclause r ord) = Spec.RRule.dateOk a ord := by
   obtain ⟨bs, hr, _⟩ := mly_rule ma h
-  have h1 := simpleOk_rule_eq_dateOk (ma_dw ma) none none none ord ho
-  obtain ⟨e1, e2, e3⟩ := date_fields_asDaily_m ma
-  have hs : simpleOk r ord = simpleOk (dailyRuleOf (asDaily a) none none none) ord := by
-    rw [hr]
-    unfold simpleOk
-    dsimp only
-    rw [e1, e2, e3]
-    rfl
-  rw [hs, h1]
-  unfold Spec.RRule.dateOk Spec.RRule.months Spec.RRule.monthdays Spec.RRule.weekdays Spec.RRule.nthOk
-    Spec.RRule.noDayParts Spec.RRule.wkst asDaily
-  simp [ma.freq]
+  rw [hr]
+  exact wOk_eq_dateOk a _ (by rw [ma.freq]; omega) (ma_dw ma) rfl rfl rfl rfl rfl rfl rfl ord ho
 
 theorem filter_eq_minute (m : Int) (h0 : 0 ≤ m) (h1 : m ≤ 59) :
     (intRange 0 60).filter (· == m) = [m] := by
@@ -194,7 +170,7 @@ theorem mtimeset_spec (ma : MinutelyArgs a) (h : construct a = .ok r) (hour minu
 /-- "the model state at the start of period `k`" for a MINUTELY rule -/
 structure MinutelyGood (a : Args) (r : Rule) (k : Nat) (st : State) : Prop where
   facts : YearFacts r st.cur.year st.info
-  nwd : st.info.nwdaymask = none
+  inv : WInv r st.info
   valid : ValidYMD st.cur.year st.cur.month st.cur.day
   hour : 0 ≤ st.cur.hour ∧ st.cur.hour ≤ 23
   minute : 0 ≤ st.cur.minute ∧ st.cur.minute ≤ 59
@@ -222,47 +198,27 @@ theorem mly_results (ma : MinutelyArgs a) (h : construct a = .ok r) (k : Nat) (s
     ∃ fl, periodResults r st = .ok (Spec.RRule.sel a (k : Int), none, fl) ∧
       (fl = true → Spec.RRule.dateOk a (curOrd st.cur) = false) ∧
       ∀ x ∈ Spec.RRule.sel a (k : Int), 0 ≤ x.ord ∧ x.ord ≤ maxOrdinal := by
-  have hs := mly_simple ma h
+  have hw := mly_wrule ma h
   obtain ⟨bs, hr, _⟩ := mly_rule ma h
   have hfreq : r.freq = 5 := by rw [hr]; exact ma.freq
   have hsp := construct_bysetpos a r h
   have htsok : TsOk st.timeset := by
     rw [hg.timeset]; exact (mtimeset_spec ma h _ _ hg.hour.1 hg.hour.2 hg.minute.1 hg.minute.2).2
-  have hidx := index_range _ _ _ hg.valid
-  have hyo := hg.facts.yearordinal
-  have hyl := hg.facts.yearlen
   have hpos : 1 ≤ curOrd st.cur := toOrdinal_pos _ _ _ hg.facts.year_lo hg.valid
-  have hd0 := dayset_daily st.cur (by omega) hg.facts hg.valid
-  have hd : dayset r st.info st.cur =
-      .ok (intRange (curOrd st.cur - st.info.yearordinal) (curOrd st.cur - st.info.yearordinal + 1)) := by
-    rw [hd0, intRange_one]
-  have hi0 : 0 ≤ curOrd st.cur - st.info.yearordinal := by unfold curOrd; rw [hyo]; exact hidx.1
-  have hi1 : curOrd st.cur - st.info.yearordinal + 1 ≤ st.info.yearlen + 7 := by
-    unfold curOrd; rw [hyo, hyl]; omega
-  obtain ⟨fl, hres⟩ := periodResults_range_sp hs st hg.facts hg.nwd (by rw [hsp.1]; exact hsp.2) htsok _ _ hd hi0 hi1
-    (by omega) (by omega)
-  have e1 : st.info.yearordinal + (curOrd st.cur - st.info.yearordinal) = curOrd st.cur := by omega
-  have e2 : st.info.yearordinal + (curOrd st.cur - st.info.yearordinal + 1) = curOrd st.cur + 1 := by omega
-  rw [e1, e2] at hres
-  have hbridge : (intRange (curOrd st.cur) (curOrd st.cur + 1)).filter (simpleOk r) =
+  obtain ⟨fl, hres, hflag⟩ := periodResults_day_w hw st hg.facts hg.inv hg.valid (by omega)
+    (by rw [hsp.1]; exact hsp.2) htsok hle
+  have hbridge : (intRange (curOrd st.cur) (curOrd st.cur + 1)).filter (fun o => simpleOk r o && wclause r o) =
       (intRange (curOrd st.cur) (curOrd st.cur + 1)).filter (Spec.RRule.dateOk a) := by
     apply List.filter_congr
     intro o ho
-    exact simpleOk_eq_dateOk_minutely ma h o (by have := (mem_intRange _ _ _).mp ho; omega)
+    exact mly_bridge ma h o (by have := (mem_intRange _ _ _).mp ho; omega)
   have hspan := mly_span ma (curOrd st.cur) st.cur.hour st.cur.minute k hg.hour.1 hg.hour.2 hg.minute.1 hg.minute.2 hg.idx
   have hsel := sel_span_gen a k _ _ _ _ _ hspan
   refine ⟨fl, ?_, ?_, ?_⟩
   · rw [hres, hg.timeset, hsel, hbridge, hsp.1]
   · intro hf
-    obtain ⟨i, hi, hfi⟩ := periodResults_flag st _ hd0 _ _ _ hres hf
-    simp only [List.mem_singleton] at hi
-    subst hi
-    rw [dayFiltered_simple hs hg.facts hg.nwd _ hi0 (by omega), e1] at hfi
-    injection hfi with hfi
-    rw [← simpleOk_eq_dateOk_minutely ma h _ hpos]
-    cases hq : simpleOk r (curOrd st.cur) with
-    | false => rfl
-    | true => rw [hq] at hfi; cases hfi
+    rw [← mly_bridge ma h _ hpos]
+    exact hflag hf
   · intro x hx
     rw [hsel] at hx
     have := sel_bounds _ _ _ _ x (applySetpos_subset _ _ x hx)
@@ -290,7 +246,7 @@ theorem mly_advance_core (ma : MinutelyArgs a) (h : construct a = .ok r) (k : Na
       st.cur.minute + X)
     (hle : curOrd st.cur * 1440 + 1439 + a.interval < (maxOrdinal + 1) * 1440) :
     ∃ st', advance r { st with count := c } fl = .ok st' ∧ MinutelyGood a r (k + s + 1) st' := by
-  have hs := mly_simple ma h
+  have hw := mly_wrule ma h
   obtain ⟨bs, hr, _⟩ := mly_rule ma h
   have hfreq : r.freq = 5 := by rw [hr]; exact ma.freq
   have hint : r.interval = a.interval := by rw [hr]
@@ -329,17 +285,17 @@ theorem mly_advance_core (ma : MinutelyArgs a) (h : construct a = .ok r) (k : Na
   · subst hz
     simp only [ne_eq, not_true_eq_false, ↓reduceIte]
     rw [fixDay_false]
-    refine ⟨_, rfl, ⟨hg.facts, hg.nwd, hg.valid, ⟨hdm.2.2.2.2.2.1, hdm.2.2.2.2.2.2.1⟩, ⟨hdm.2.1, hdm.2.2.1⟩, ?_, rfl⟩⟩
+    refine ⟨_, rfl, ⟨hg.facts, hg.inv, hg.valid, ⟨hdm.2.2.2.2.2.1, hdm.2.2.2.2.2.2.1⟩, ⟨hdm.2.1, hdm.2.2.1⟩, ?_, rfl⟩⟩
     dsimp only
     have : curOrd { st.cur with hour := hr', minute := mi' } = curOrd st.cur := rfl
     rw [this, ek]; omega
   · simp only [ne_eq, hz, not_false_eq_true, ↓reduceIte]
     have hcur : curOrd { st.cur with day := st.cur.day + nd, hour := hr', minute := mi' } = curOrd st.cur + nd := by
       unfold curOrd toOrdinal; dsimp only; omega
-    obtain ⟨st', hfix, hnw'⟩ := fixDay_ok r hs
+    obtain ⟨st', hfix, hnw'⟩ := fixDay_ok_w hw
       { cur := { st.cur with day := st.cur.day + nd, hour := hr', minute := mi' }, info := st.info,
         timeset := Spec.RRule.timesOf a (some hr') (some mi') none, count := c }
-      hm1 hm12 (by dsimp only; omega) hg.facts.year_lo hg.facts.year_hi (by dsimp only; rw [hcur]; omega) hg.nwd
+      true hm1 hm12 (by dsimp only; omega) hg.facts.year_lo hg.facts.year_hi (by dsimp only; rw [hcur]; omega) hg.inv
     have sp := fixDay_spec r _ st' hfix hm1 hm12 (by dsimp only; omega) hg.facts
     obtain ⟨e, v, f', eh, em, _, _, ts⟩ := sp
     refine ⟨st', hfix, ⟨f', hnw', v, by rw [eh]; exact ⟨hdm.2.2.2.2.2.1, hdm.2.2.2.2.2.2.1⟩,
@@ -403,10 +359,10 @@ theorem mly_next (ma : MinutelyArgs a) (h : construct a = .ok r) (k : Nat) (st :
 
 theorem mly_init (ma : MinutelyArgs a) (h : construct a = .ok r) :
     ∃ st0, init r = .ok st0 ∧ MinutelyGood a r 0 st0 ∧ st0.count = r.count := by
-  have hs := mly_simple ma h
+  have hw := mly_wrule ma h
   have hv := ma.valid
   unfold DT.Valid ValidDate at hv
-  obtain ⟨info, hre, hnw, _, _⟩ := rebuild_simple r hs a.dtstart.y a.dtstart.m hv.1.1 hv.1.2.1
+  obtain ⟨info, hre, hnw⟩ := rebuild_w hw a.dtstart.y a.dtstart.m hv.1.1 hv.1.2.1
   obtain ⟨bs, hr, _⟩ := mly_rule ma h
   have hd : r.dtstart = { a.dtstart with us := 0 } := by rw [hr]
   have hf : r.freq = 5 := by rw [hr]; exact ma.freq
